@@ -274,6 +274,7 @@ func (n *Net) serve(conn net.Conn, srv *Server, isTLS bool) {
 	n.reqs = append(n.reqs, q)
 	n.mu.Unlock()
 	req.Body = io.NopCloser(bytes.NewReader(body))
+	req.Header.Set("X-Sim-Srvseq", fmt.Sprint(q.SrvSeq)) // lets harness handlers tell requests apart
 	go func() {
 		// the client sends nothing after its request: a read returns only
 		// when either side closes the connection
